@@ -1,8 +1,10 @@
+import NomtModel.Store.WalkerSimStack
 import NomtModel.Store.WalkerSimSafe
+import NomtModel.Store.WalkerGSimSafe
 /-!
 # `build_stack` and `replace_terminal` of the mirror against the tree walker
 -/
-namespace Nomt.Walker
+namespace Nomt.Walker.G
 open Nomt Nomt.TriePos
 open Nomt.Wal (PageDiff)
 
@@ -11,23 +13,13 @@ variable {Node VH : Type} [DecidableEq Node] [DecidableEq VH] (H : Hasher Node V
 /-- the origins `build_stack` may meet: a page loaded from the hash table (not for a reconstructor, `Z`), or a reconstructed page
 with the counters `0 / 0` (the first elided page `reconstruct` inserts) -/
 def OriginZ (Z : Prop) (o : Origin) : Prop :=
-  ((∃ b, o = .persisted b) ∧ ¬ Z) ∨ (∃ d, o = .reconstructed 0 0 d)
+  (¬ Z) ∨ (∃ d, o = .reconstructed 0 0 d)
 
 /-- a page of the page set that can be loaded on the stack: present with an admissible origin, 126 slots, and its slots are what
 the flat store holds -/
 def Loadable (Z : Prop) (st : Store Node) (Q : PageId) : Prop :=
   ∃ pg o, ps.get Q = some (pg, o) ∧ OriginZ Z o ∧ pg.nodes.length = 126 ∧
     ∀ q, q ≠ [] → q.length ≤ 256 → specPage q = Q → pg.nodes.getD (specIndex q) H.term = st q
-
-theorem new_pageId (pid : PageId) (pg : Page Node) (d : PageDiff) (o : Origin) :
-    (StackPage.new pid pg d o).pageId = pid := by cases o <;> rfl
-
-theorem sum_clOf_zero : ∀ (l : List (StackPage Node)), (∀ sp ∈ l, sp.childrenLeaves = none) → (l.map clOf).sum = 0
-  | [], _ => rfl
-  | x :: xs, h => by
-    simp only [List.map_cons, List.sum_cons]
-    rw [sum_clOf_zero xs (fun sp hsp => h sp (List.mem_cons_of_mem _ hsp))]
-    unfold clOf; rw [h x (by simp)]; rfl
 
 /-- what the simulation needs of a page `build_stack` pushes -/
 def PushedOK (Z : Prop) (st : Store Node) (sp : StackPage Node) : Prop :=
@@ -44,21 +36,18 @@ theorem pushed_new (Z : Prop) (st : Store Node) (cur : PageId) (pg : Page Node) 
     · cases o' <;> exact hg
     · intro i _ hne
       cases o' <;> exact absurd rfl hne
-  rcases ho with ⟨⟨b, hb⟩, hz⟩ | ⟨d, hd⟩
-  · subst hb
-    exact ⟨⟨hl126, fun q hq hql hqp => hm q hq hql hqp⟩, Or.inl ⟨rfl, rfl⟩, hdiff _ hget, rfl, fun h => absurd h hz⟩
+  have hcnt : ∀ o' : Origin, CountersOK (StackPage.new cur pg PageDiff.empty o') := by
+    intro o' h
+    cases o' <;> cases h
+  have hcl : ∀ o' : Origin, (StackPage.new cur pg PageDiff.empty o').childrenLeaves = none := by
+    intro o'; cases o' <;> rfl
+  have hpm : ∀ o' : Origin, PageMatches H (StackPage.new cur pg PageDiff.empty o') st := by
+    intro o'
+    cases o' <;> exact ⟨hl126, fun q hq hql hqp => hm q hq hql hqp⟩
+  rcases ho with hz | ⟨d, hd⟩
+  · exact ⟨hpm o, hcnt o, hdiff _ hget, hcl o, fun h => absurd h hz⟩
   · subst hd
-    exact ⟨⟨hl126, fun q hq hql hqp => hm q hq hql hqp⟩, Or.inr ⟨rfl, rfl⟩, hdiff _ hget, rfl, fun _ => ⟨rfl, rfl⟩⟩
-
-/-- `cur`, its parent page, … (`n` ids) -/
-def idsDown : PageId → Nat → List PageId
-  | _, 0 => []
-  | cur, n + 1 => cur :: idsDown cur.dropLast n
-
-theorem idsDown_length (cur : PageId) (n : Nat) : (idsDown cur n).length = n := by
-  induction n generalizing cur with
-  | zero => rfl
-  | succ n ih => simp [idsDown, ih]
+    exact ⟨hpm _, hcnt _, hdiff _ hget, rfl, fun _ => ⟨rfl, rfl⟩⟩
 
 /-- the pages `build_stack` pushes below a target id `T` (a prefix of `cur`) -/
 theorem pushLoop_some (Z : Prop) (st : Store Node) (T : PageId) : ∀ (n : Nat) (cur : PageId), cur.length = T.length + n → T <+: cur →
@@ -149,84 +138,7 @@ theorem pushLoop_none (Z : Prop) (st : Store Node) : ∀ (n : Nat) (cur : PageId
 
 /-! ## chains of `idsDown` -/
 
-theorem chain_idsDown_onto (parent : Option PageId) (T : PageId) (rest : List PageId) (hc : ChainBelow parent (T :: rest)) :
-    ∀ (n : Nat) (cur : PageId), cur.length = T.length + n → T <+: cur → ChainBelow parent (idsDown cur n ++ T :: rest) := by
-  intro n
-  induction n with
-  | zero => intro cur _ _; exact hc
-  | succ n ih =>
-    intro cur hlen hpre
-    have hcne : cur ≠ [] := by intro e; rw [e] at hlen; simp at hlen
-    have hne : cur ≠ T := by intro e; rw [e] at hlen; omega
-    have hdl : cur.dropLast.length = T.length + n := by rw [List.length_dropLast]; omega
-    have hpre' : T <+: cur.dropLast := by
-      obtain ⟨u, hu⟩ := hpre
-      rcases List.eq_nil_or_concat u with e | ⟨u', x, e⟩
-      · subst e; simp at hu; exact absurd hu.symm hne
-      · subst e
-        rw [← hu]
-        simp only [List.concat_eq_append, ← List.append_assoc, List.dropLast_concat]
-        exact List.prefix_append _ _
-    have hrec := ih cur.dropLast hdl hpre'
-    simp only [idsDown, List.cons_append]
-    cases n with
-    | zero =>
-      have : cur.dropLast = T := (hpre'.eq_of_length (by omega)).symm
-      simp only [idsDown, List.nil_append]
-      exact ⟨hcne, this.symm, hc⟩
-    | succ m =>
-      simp only [idsDown, List.cons_append] at hrec ⊢
-      exact ⟨hcne, rfl, hrec⟩
-
-theorem chain_idsDown_some (T : PageId) : ∀ (n : Nat) (cur : PageId), 1 ≤ n → cur.length = T.length + n → T <+: cur →
-    ChainBelow (some T) (idsDown cur n) := by
-  intro n
-  induction n with
-  | zero => intro cur h; omega
-  | succ n ih =>
-    intro cur _ hlen hpre
-    have hcne : cur ≠ [] := by intro e; rw [e] at hlen; simp at hlen
-    have hne : cur ≠ T := by intro e; rw [e] at hlen; omega
-    have hdl : cur.dropLast.length = T.length + n := by rw [List.length_dropLast]; omega
-    have hpre' : T <+: cur.dropLast := by
-      obtain ⟨u, hu⟩ := hpre
-      rcases List.eq_nil_or_concat u with e | ⟨u', x, e⟩
-      · subst e; simp at hu; exact absurd hu.symm hne
-      · subst e
-        rw [← hu]
-        simp only [List.concat_eq_append, ← List.append_assoc, List.dropLast_concat]
-        exact List.prefix_append _ _
-    cases n with
-    | zero =>
-      have : cur.dropLast = T := (hpre'.eq_of_length (by omega)).symm
-      simp only [idsDown, ChainBelow]
-      exact ⟨hcne, this⟩
-    | succ m =>
-      have hrec := ih cur.dropLast (by omega) hdl hpre'
-      simp only [idsDown] at hrec ⊢
-      exact ⟨hcne, rfl, hrec⟩
-
-theorem chain_idsDown_none : ∀ (n : Nat) (cur : PageId), cur.length = n → ChainBelow none (idsDown cur (n + 1)) := by
-  intro n
-  induction n with
-  | zero =>
-    intro cur hlen
-    have : cur = [] := List.eq_nil_of_length_eq_zero hlen
-    subst this
-    simp [idsDown, ChainBelow]
-  | succ n ih =>
-    intro cur hlen
-    have hcne : cur ≠ [] := by intro e; rw [e] at hlen; simp at hlen
-    have hrec := ih cur.dropLast (by rw [List.length_dropLast]; omega)
-    simp only [idsDown] at hrec ⊢
-    exact ⟨hcne, rfl, hrec⟩
-
 /-! ## `build_stack` -/
-
-theorem idsDown_head (cur : PageId) (n : Nat) (h : 1 ≤ n) : ∃ tl, idsDown cur n = cur :: tl := by
-  cases n with
-  | zero => omega
-  | succ m => exact ⟨_, rfl⟩
 
 /-- `build_stack` to a position below the root -/
 theorem sim_buildStack {w : Walker Node} {a : TW Node} (h : Sim H ps w a) (position : Pos) (hpw : position.WF)
@@ -463,9 +375,10 @@ theorem sim_replaceTerminal (hs : H.Sound) (hfresh : ∀ P, (ps.fresh P).length 
     (Lfin : List (PageId × Store Node))
     (hfin : w.reconstruction = true → SmallBy H ps Lfin ∧
       (a.replaceTerminal H (cfgOf H ps w.parentPage) (sub S' a.pos)).log <+: Lfin) :
-    ∃ w', w.replaceTerminal H ps (sub S' a.pos) = .ok w' ∧
+    (∃ w', w.replaceTerminal H ps (sub S' a.pos) = .ok w' ∧
       Sim H ps w' (a.replaceTerminal H (cfgOf H ps w.parentPage) (sub S' a.pos)) ∧ Same w w' ∧
-      w'.childPageRoots = w.childPageRoots := by
+      w'.childPageRoots = w.childPageRoots) ∨
+    (w.reconstruction = false ∧ w.replaceTerminal H ps (sub S' a.pos) = .panic GUARD) := by
   have hdep := pos_depth_pos h.wf h.pos
   have hlen := sim_len H ps h
   -- the node at the position
@@ -514,9 +427,13 @@ theorem sim_replaceTerminal (hs : H.Sound) (hfresh : ∀ P, (ps.fresh P).length 
           rw [this]; rfl)
         hsc' (256 - a.pos.length) a.pos none a.pos a rfl (List.prefix_refl _) hlen he (List.prefix_refl _) ⟨rfl, rfl⟩
       simpa using this
-  obtain ⟨w2, hw2, hs2, hsame2, hcpr2⟩ := sim_visitAll H ps hs hfresh a.pos.length Lfin _
+  rcases sim_visitAll H ps hs hfresh a.pos.length Lfin _
     ({ w with prevNode := some a.cur } : Walker Node) a (sim_other_fields H ps h w.siblingStack (some a.cur) w.lastPosition)
-    hsafe hfin
+    hsafe hfin with ⟨w2, hw2, hs2, hsame2, hcpr2⟩ | ⟨hnr, hp⟩
+  case inr =>
+    right
+    refine ⟨hnr, ?_⟩
+    rw [hp]
   rw [hw2]
   simp only
   -- the position is back where it started
@@ -535,7 +452,7 @@ theorem sim_replaceTerminal (hs : H.Sound) (hfresh : ∀ P, (ps.fresh P).length 
     have hst2 : w2.stack = [] := hs2.stackE.mpr (by rw [hpos2, hn]; simp)
     rw [if_neg (by simp [hroot2])]
     rw [if_pos (by rw [hst2]; rfl)]
-    exact ⟨w2, rfl, hs2, hsame, hcpr2⟩
+    exact Or.inl ⟨w2, rfl, hs2, hsame, hcpr2⟩
   · have hne := sim_pos_ne (w := w) hd
     have hroot2 : ¬ w2.position.isRoot = true := by
       unfold Pos.isRoot; rw [hdep2, hpos2]; simp; exact hne
@@ -550,6 +467,6 @@ theorem sim_replaceTerminal (hs : H.Sound) (hfresh : ∀ P, (ps.fresh P).length 
     rw [pageId_eq w2.position hs2.wf hd2]
     simp only
     rw [if_pos (by rw [htop2, hs2.pos])]
-    exact ⟨w2, rfl, hs2, hsame, hcpr2⟩
+    exact Or.inl ⟨w2, rfl, hs2, hsame, hcpr2⟩
 
-end Nomt.Walker
+end Nomt.Walker.G
